@@ -9,7 +9,7 @@ namespace LinVerif.Lemmas.C02
 open LinVerif.VersionSet LinVerif.TableCache
 
 theorem jLock_eq (s : St) (j : Nat) :
-    jLock s j = (setLock s (some j)).setJob j { s.job j with pc := .cLocked } := rfl
+    jLock s j = (setLock s (some j)).setJob j { s.job j with nfRead := s.nextFile, pc := .cLocked } := rfl
 
 theorem safe_jLock {s : St} {j : Nat} (h : Safe s) (hj : j < s.nJob) (hpc : (s.job j).pc = .ready)
     (hl : s.lock = none) : Safe (jLock s j) := by
@@ -20,9 +20,9 @@ theorem safe_jLock {s : St} {j : Nat} (h : Safe s) (hj : j < s.nJob) (hpc : (s.j
     have := (h.jobs k hk).lock hc
     rw [hl] at this; cases this
   apply safe_setJob h1
-  · obtain ⟨h0, hn0, hn1, hn2, h1, h2, h3, h4, h5, h6, h7, h8, h9, h10, hrec, h11, h12, h13, h14⟩ := h.jobs j hj
+  · obtain ⟨h0, hn0, hn1, hn2, h1, h2, h3, h4, h5, h6, h7, h8, h9, h10, hrec, hnf, hrd, h11, h12, h13, h14⟩ := h.jobs j hj
     generalize s.job j = b at *
-    obtain ⟨kind, pc, payload, snap, inputs, trivial, todoIn, out, edit, csnap, newVer, prev, prevZero, dlist, live, todoDel⟩ := b
+    obtain ⟨kind, pc, payload, snap, inputs, trivial, todoIn, out, edit, csnap, newVer, prev, prevZero, nfRead, dlist, live, todoDel⟩ := b
     simp only at hpc; subst hpc
     constructor <;>
       simp only [setLock, compactOnly, preAlloc, outPending, outOnDisk, inCommit, ownRange, csnapRange, editRange, delRange, postSwap,
@@ -33,18 +33,26 @@ theorem safe_readyEmpty {s : St} {j : Nat} (h : Safe s) (hj : j < s.nJob) (hpc :
     (hempty : (s.job j).edit.isEmpty = true) :
     Safe (setPc s j .cUnlocked) := by
   apply safe_setPc_plain h
-  obtain ⟨h0, hn0, hn1, hn2, h1, h2, h3, h4, h5, h6, h7, h8, h9, h10, hrec, h11, h12, h13, h14⟩ := h.jobs j hj
+  obtain ⟨h0, hn0, hn1, hn2, h1, h2, h3, h4, h5, h6, h7, h8, h9, h10, hrec, hnf, hrd, h11, h12, h13, h14⟩ := h.jobs j hj
   generalize s.job j = b at *
-  obtain ⟨kind, pc, payload, snap, inputs, trivial, todoIn, out, edit, csnap, newVer, prev, prevZero, dlist, live, todoDel⟩ := b
+  obtain ⟨kind, pc, payload, snap, inputs, trivial, todoIn, out, edit, csnap, newVer, prev, prevZero, nfRead, dlist, live, todoDel⟩ := b
   simp only at hpc hempty; subst hpc
   jobok_at
 
+theorem upd_upd {α : Type} (f : Nat → α) (i : Nat) (x y : α) : upd (upd f i x) i y = upd f i y := by
+  funext k; simp only [upd]; split <;> rfl
+
+theorem jSnap_eq (s : St) (j : Nat) (h : (s.job j).nfRead = s.nextFile) :
+    jSnap s j = (buildVersion (snapAcquire (setPc s j .ready) (some j)) (s.job j).edit).setJob j
+      { s.job j with csnap := s.nSnap, newVer := s.nextVer, prev := s.cur, pc := .cSnapped } := by
+  simp only [jSnap, buildVersionAt, buildVersion, snapAcquire, setPc, St.setJob, upd_upd, h]
+
 theorem safe_jSnap {s : St} {j : Nat} (h : Safe s) (hj : j < s.nJob) (hpc : (s.job j).pc = .cLocked) :
     Safe (jSnap s j) := by
-  unfold jSnap
   have hb0 := h.jobs j hj
+  rw [jSnap_eq s j (hb0.nfread hpc)]
+  have hlock := hb0.lock (by rw [hpc]; rfl)
   have hfb := h.file_bound
-  have hvb := h.ver_bound
   have hed := hb0.edit (by rw [hpc]; rfl)
   have hadds : ∀ m ∈ (s.job j).edit.adds, m.no < s.nextFile := by
     intro m hm
@@ -52,27 +60,46 @@ theorem safe_jSnap {s : St} {j : Nat} (h : Safe s) (hj : j < s.nJob) (hpc : (s.j
     · exact hb0.outlt _ h'
     · exact hfb.1 _ _ h'
   have hroll : ∀ f ∈ (s.job j).edit.rollAdd, f < s.nextFile := fun f hf => hb0.outlt _ (hed.2 f hf)
-  have h1 := safe_acquire (some j) h
-  have h2 : Safe (buildVersion (snapAcquire s (some j)) (s.job j).edit) :=
-    safe_build h1 (by simpa [snapAcquire] using hadds) (by simpa [snapAcquire] using hroll)
-  have hb1 := jobOk_acquire (o := some j) hb0
-  have hb2 := jobOk_build (e := (s.job j).edit) hb1 h1.ver_bound.1 h1.ver_bound.2.1 h1.ver_bound.2.2
-  apply safe_setJob h2
-  · obtain ⟨h0, hn0, hn1, hn2, h1, h2, h3, h4, h5, h6, h7, h8, h9, h10, hrec, h11, h12, h13, h14⟩ := hb2
-    have hown0 := hb0.own
+  -- step back to `ready` (no clause about the number read under the mutex), then acquire + build
+  have hbr : JobOk s j { s.job j with pc := .ready } := by
+    obtain ⟨h0, hn0, hn1, hn2, h1, h2, h3, h4, h5, h6, h7, h8, h9, h10, hrec, hnf, hrd, h11, h12, h13, h14⟩ := hb0
     generalize s.job j = b at *
-    obtain ⟨kind, pc, payload, snap, inputs, trivial, todoIn, out, edit, csnap, newVer, prev, prevZero, dlist, live, todoDel⟩ := b
+    obtain ⟨kind, pc, payload, snap, inputs, trivial, todoIn, out, edit, csnap, newVer, prev, prevZero, nfRead, dlist, live, todoDel⟩ := b
+    simp only at hpc; subst hpc
+    jobok_at
+  have h0 : Safe (setPc s j .ready) := safe_setPc_plain h hbr
+  have hnl : ∀ k, k < s.nJob → ((setPc s j .ready).job k).pc ≠ .cLocked := by
+    intro k hk hc
+    simp only [setPc, St.setJob, upd] at hc
+    by_cases hkj : k = j
+    · simp [hkj] at hc
+    · simp only [hkj, if_false] at hc
+      have := (h.jobs k hk).lock (by rw [hc]; rfl)
+      rw [hlock] at this
+      exact hkj (by cases this; rfl)
+  have h1 := safe_acquire (some j) h0
+  have h2 : Safe (buildVersion (snapAcquire (setPc s j .ready) (some j)) (s.job j).edit) :=
+    safe_build h1 (by simpa [snapAcquire, setPc, St.setJob] using hadds) (by simpa [snapAcquire, setPc, St.setJob] using hroll)
+      (fun k hk => hnl k hk)
+  have hb1 := jobOk_acquire (o := some j) (h0.jobs j hj)
+  have hb2 := jobOk_build (e := (s.job j).edit) hb1 h1.ver_bound.1 h1.ver_bound.2.1 h1.ver_bound.2.2
+    (by simp [setPc, St.setJob])
+  apply safe_setJob h2
+  · have hb2' : JobOk (buildVersion (snapAcquire (setPc s j .ready) (some j)) (s.job j).edit) j { s.job j with pc := .ready } := by
+      simpa [setPc, St.setJob] using hb2
+    obtain ⟨h0, hn0, hn1, hn2, h1, h2, h3, h4, h5, h6, h7, h8, h9, h10, hrec, hnf, hrd, h11, h12, h13, h14⟩ := hb2'
+    have hown0 := hb0.own
+    have hcurlt := h.ver_bound.1
+    generalize s.job j = b at *
+    obtain ⟨kind, pc, payload, snap, inputs, trivial, todoIn, out, edit, csnap, newVer, prev, prevZero, nfRead, dlist, live, todoDel⟩ := b
     simp only at hpc; subst hpc
     constructor <;>
-      simp only [buildVersion, snapAcquire, compactOnly, preAlloc, outPending, outOnDisk, inCommit, ownRange, csnapRange, editRange, delRange, postSwap,
+      simp only [buildVersion, snapAcquire, setPc, St.setJob, compactOnly, preAlloc, outPending, outOnDisk, inCommit, ownRange, csnapRange, editRange, delRange, postSwap,
         PastPending, Dead, DeadR, outNo] at * <;> grind [upd]
-  · left; rfl
-
-theorem upd_upd {α : Type} (f : Nat → α) (i : Nat) (x y : α) : upd (upd f i x) i y = upd f i y := by
-  funext k; simp only [upd]; split <;> rfl
+  · left; simp [buildVersion, snapAcquire, setPc, St.setJob, outNo]
 
 theorem jSwap_eq (s : St) (j : Nat) :
-    jSwap s j = noteFlush ((swapVersion (setPc s j .cLocked) (s.job j).newVer (s.job j).edit).setJob j
+    jSwap s j = noteFlush ((swapVersion (setPc s j .ready) (s.job j).newVer (s.job j).edit).setJob j
       { s.job j with pc := .cSwapped }) (if (s.job j).kind = .flush then outNo (s.job j) else []) := by
   simp only [jSwap, noteFlush, swapVersion, setPc, St.setJob, upd_upd]
 
@@ -82,11 +109,11 @@ theorem safe_jSwap {s : St} {j : Nat} (h : Safe s) (hj : j < s.nJob) (hpc : (s.j
   apply safe_noteFlush
   have hb0 := h.jobs j hj
   -- step back to the pc before the clone (no clause about the built version), install, then move on
-  have h1 : Safe (setPc s j .cLocked) := by
+  have h1 : Safe (setPc s j .ready) := by
     apply safe_setPc_plain h
-    obtain ⟨h0, hn0, hn1, hn2, h1, h2, h3, h4, h5, h6, h7, h8, h9, h10, hrec, h11, h12, h13, h14⟩ := hb0
+    obtain ⟨h0, hn0, hn1, hn2, h1, h2, h3, h4, h5, h6, h7, h8, h9, h10, hrec, hnf, hrd, h11, h12, h13, h14⟩ := hb0
     generalize s.job j = b at *
-    obtain ⟨kind, pc, payload, snap, inputs, trivial, todoIn, out, edit, csnap, newVer, prev, prevZero, dlist, live, todoDel⟩ := b
+    obtain ⟨kind, pc, payload, snap, inputs, trivial, todoIn, out, edit, csnap, newVer, prev, prevZero, nfRead, dlist, live, todoDel⟩ := b
     simp only at hpc; subst hpc
     jobok_at
   obtain ⟨hlt, heq⟩ := hb0.built hpc
@@ -94,7 +121,7 @@ theorem safe_jSwap {s : St} {j : Nat} (h : Safe s) (hj : j < s.nJob) (hpc : (s.j
   have hpend := hb0.pend (by rw [hpc]; rfl)
   have hdisk := hb0.ondisk (by rw [hpc]; rfl)
   have hlock := hb0.lock (by rw [hpc]; rfl)
-  have h2 : Safe (swapVersion (setPc s j .cLocked) (s.job j).newVer (s.job j).edit) := by
+  have h2 : Safe (swapVersion (setPc s j .ready) (s.job j).newVer (s.job j).edit) := by
     apply safe_swap h1 (by simpa [setPc, St.setJob] using hlt) (by simpa [setPc, St.setJob] using heq)
     · intro m hm
       simp only [setPc, St.setJob]
@@ -117,9 +144,9 @@ theorem safe_jSwap {s : St} {j : Nat} (h : Safe s) (hj : j < s.nJob) (hpc : (s.j
         exact hkj (by cases this; rfl)
   apply safe_setJob h2
   · clear h1 h2 hed hpend hdisk hlock hlt heq
-    obtain ⟨h0, hn0, hn1, hn2, h1, h2, h3, h4, h5, h6, h7, h8, h9, h10, hrec, h11, h12, h13, h14⟩ := hb0
+    obtain ⟨h0, hn0, hn1, hn2, h1, h2, h3, h4, h5, h6, h7, h8, h9, h10, hrec, hnf, hrd, h11, h12, h13, h14⟩ := hb0
     generalize s.job j = b at *
-    obtain ⟨kind, pc, payload, snap, inputs, trivial, todoIn, out, edit, csnap, newVer, prev, prevZero, dlist, live, todoDel⟩ := b
+    obtain ⟨kind, pc, payload, snap, inputs, trivial, todoIn, out, edit, csnap, newVer, prev, prevZero, nfRead, dlist, live, todoDel⟩ := b
     simp only at hpc; subst hpc
     constructor <;>
       simp only [swapVersion, setPc, St.setJob, compactOnly, preAlloc, outPending, outOnDisk, inCommit, ownRange, csnapRange,
@@ -130,9 +157,9 @@ theorem safe_jCheck {s : St} {j : Nat} (h : Safe s) (hj : j < s.nJob) (hpc : (s.
     Safe (jCheck s j) := by
   unfold jCheck
   apply safe_setJob h
-  · obtain ⟨h0, hn0, hn1, hn2, h1, h2, h3, h4, h5, h6, h7, h8, h9, h10, hrec, h11, h12, h13, h14⟩ := h.jobs j hj
+  · obtain ⟨h0, hn0, hn1, hn2, h1, h2, h3, h4, h5, h6, h7, h8, h9, h10, hrec, hnf, hrd, h11, h12, h13, h14⟩ := h.jobs j hj
     generalize s.job j = b at *
-    obtain ⟨kind, pc, payload, snap, inputs, trivial, todoIn, out, edit, csnap, newVer, prev, prevZero, dlist, live, todoDel⟩ := b
+    obtain ⟨kind, pc, payload, snap, inputs, trivial, todoIn, out, edit, csnap, newVer, prev, prevZero, nfRead, dlist, live, todoDel⟩ := b
     simp only at hpc; subst hpc
     jobok_at
   · left; rfl
@@ -143,9 +170,9 @@ theorem safe_jPrevRm {cfg : Cfg} {s : St} {j : Nat} (hr : cfg.recheck = true) (h
   dsimp only
   have h1 : Safe (setPc s j .cPrevDone) := by
     apply safe_setPc_plain h
-    obtain ⟨h0, hn0, hn1, hn2, h1, h2, h3, h4, h5, h6, h7, h8, h9, h10, hrec, h11, h12, h13, h14⟩ := h.jobs j hj
+    obtain ⟨h0, hn0, hn1, hn2, h1, h2, h3, h4, h5, h6, h7, h8, h9, h10, hrec, hnf, hrd, h11, h12, h13, h14⟩ := h.jobs j hj
     generalize s.job j = b at *
-    obtain ⟨kind, pc, payload, snap, inputs, trivial, todoIn, out, edit, csnap, newVer, prev, prevZero, dlist, live, todoDel⟩ := b
+    obtain ⟨kind, pc, payload, snap, inputs, trivial, todoIn, out, edit, csnap, newVer, prev, prevZero, nfRead, dlist, live, todoDel⟩ := b
     simp only at hpc; subst hpc
     jobok_at
   split
@@ -168,9 +195,9 @@ theorem safe_cDec {s : St} {j : Nat} (h : Safe s) (hj : j < s.nJob) (hpc : (s.jo
   have hcs := hb0.csnap (by rw [hpc]; rfl)
   have h1 : Safe (setPc s j .cDecd) := by
     apply safe_setPc_plain h
-    obtain ⟨h0, hn0, hn1, hn2, h1, h2, h3, h4, h5, h6, h7, h8, h9, h10, hrec, h11, h12, h13, h14⟩ := hb0
+    obtain ⟨h0, hn0, hn1, hn2, h1, h2, h3, h4, h5, h6, h7, h8, h9, h10, hrec, hnf, hrd, h11, h12, h13, h14⟩ := hb0
     generalize s.job j = b at *
-    obtain ⟨kind, pc, payload, snap, inputs, trivial, todoIn, out, edit, csnap, newVer, prev, prevZero, dlist, live, todoDel⟩ := b
+    obtain ⟨kind, pc, payload, snap, inputs, trivial, todoIn, out, edit, csnap, newVer, prev, prevZero, nfRead, dlist, live, todoDel⟩ := b
     simp only at hpc; subst hpc
     jobok_at
   apply safe_dec h1 (by simpa [setPc, St.setJob] using hcs.1) (by simpa [setPc, St.setJob] using ho)
@@ -189,9 +216,9 @@ theorem safe_cRemove {cfg : Cfg} {s : St} {j : Nat} (hr : cfg.recheck = true) (h
   have hcs := hb0.csnap (by rw [hpc]; rfl)
   have h1 : Safe (setPc s j .cRemoved) := by
     apply safe_setPc_plain h
-    obtain ⟨h0, hn0, hn1, hn2, h1, h2, h3, h4, h5, h6, h7, h8, h9, h10, hrec, h11, h12, h13, h14⟩ := hb0
+    obtain ⟨h0, hn0, hn1, hn2, h1, h2, h3, h4, h5, h6, h7, h8, h9, h10, hrec, hnf, hrd, h11, h12, h13, h14⟩ := hb0
     generalize s.job j = b at *
-    obtain ⟨kind, pc, payload, snap, inputs, trivial, todoIn, out, edit, csnap, newVer, prev, prevZero, dlist, live, todoDel⟩ := b
+    obtain ⟨kind, pc, payload, snap, inputs, trivial, todoIn, out, edit, csnap, newVer, prev, prevZero, nfRead, dlist, live, todoDel⟩ := b
     simp only at hpc; subst hpc
     jobok_at
   exact safe_snapRemove hr z h1 (by simpa [setPc, St.setJob] using hcs.1) (by simp [setPc, St.setJob, ho])
@@ -203,9 +230,9 @@ theorem safe_cRel {s : St} {j : Nat} (h : Safe s) (hj : j < s.nJob)
   have hcs := hb0.csnap (by rw [hpc]; rfl)
   have h1 : Safe (setPc s j .cReleased) := by
     apply safe_setPc_plain h
-    obtain ⟨h0, hn0, hn1, hn2, h1, h2, h3, h4, h5, h6, h7, h8, h9, h10, hrec, h11, h12, h13, h14⟩ := hb0
+    obtain ⟨h0, hn0, hn1, hn2, h1, h2, h3, h4, h5, h6, h7, h8, h9, h10, hrec, hnf, hrd, h11, h12, h13, h14⟩ := hb0
     generalize s.job j = b at *
-    obtain ⟨kind, pc, payload, snap, inputs, trivial, todoIn, out, edit, csnap, newVer, prev, prevZero, dlist, live, todoDel⟩ := b
+    obtain ⟨kind, pc, payload, snap, inputs, trivial, todoIn, out, edit, csnap, newVer, prev, prevZero, nfRead, dlist, live, todoDel⟩ := b
     simp only at hpc; subst hpc
     jobok_at
   exact safe_rel h1 (by simpa [setPc, St.setJob] using hcs.1) (by simp [setPc, St.setJob, ho])
@@ -217,9 +244,9 @@ theorem safe_jUnlock {s : St} {j : Nat} (h : Safe s) (hj : j < s.nJob) (hpc : (s
   have hlock := hb0.lock (by rw [hpc]; rfl)
   have h1 : Safe (setPc s j .cUnlocked) := by
     apply safe_setPc_plain h
-    obtain ⟨h0, hn0, hn1, hn2, h1, h2, h3, h4, h5, h6, h7, h8, h9, h10, hrec, h11, h12, h13, h14⟩ := hb0
+    obtain ⟨h0, hn0, hn1, hn2, h1, h2, h3, h4, h5, h6, h7, h8, h9, h10, hrec, hnf, hrd, h11, h12, h13, h14⟩ := hb0
     generalize s.job j = b at *
-    obtain ⟨kind, pc, payload, snap, inputs, trivial, todoIn, out, edit, csnap, newVer, prev, prevZero, dlist, live, todoDel⟩ := b
+    obtain ⟨kind, pc, payload, snap, inputs, trivial, todoIn, out, edit, csnap, newVer, prev, prevZero, nfRead, dlist, live, todoDel⟩ := b
     simp only at hpc; subst hpc
     jobok_at
   apply safe_setLock h1
@@ -238,9 +265,9 @@ theorem safe_jUnpend {s : St} {j : Nat} (pc' : Pc) (h : Safe s) (hj : j < s.nJob
   have hb0 := h.jobs j hj
   have h1 : Safe (setPc s j pc') := by
     apply safe_setPc_plain h
-    obtain ⟨h0, hn0, hn1, hn2, h1, h2, h3, h4, h5, h6, h7, h8, h9, h10, hrec, h11, h12, h13, h14⟩ := hb0
+    obtain ⟨h0, hn0, hn1, hn2, h1, h2, h3, h4, h5, h6, h7, h8, h9, h10, hrec, hnf, hrd, h11, h12, h13, h14⟩ := hb0
     generalize s.job j = b at *
-    obtain ⟨kind, pc, payload, snap, inputs, trivial, todoIn, out, edit, csnap, newVer, prev, prevZero, dlist, live, todoDel⟩ := b
+    obtain ⟨kind, pc, payload, snap, inputs, trivial, todoIn, out, edit, csnap, newVer, prev, prevZero, nfRead, dlist, live, todoDel⟩ := b
     simp only at hpc hpc'; subst hpc
     rcases hpc' with rfl | ⟨rfl, rfl⟩ <;> jobok_at
   apply safe_unpend h1
@@ -259,9 +286,9 @@ theorem safe_oDec {s : St} {j : Nat} (h : Safe s) (hj : j < s.nJob) (hpc : (s.jo
   have hown := hb0.own hk (by rw [hpc]; rfl)
   have h1 : Safe (setPc s j .oDecd) := by
     apply safe_setPc_plain h
-    obtain ⟨h0, hn0, hn1, hn2, h1, h2, h3, h4, h5, h6, h7, h8, h9, h10, hrec, h11, h12, h13, h14⟩ := hb0
+    obtain ⟨h0, hn0, hn1, hn2, h1, h2, h3, h4, h5, h6, h7, h8, h9, h10, hrec, hnf, hrd, h11, h12, h13, h14⟩ := hb0
     generalize s.job j = b at *
-    obtain ⟨kind, pc, payload, snap, inputs, trivial, todoIn, out, edit, csnap, newVer, prev, prevZero, dlist, live, todoDel⟩ := b
+    obtain ⟨kind, pc, payload, snap, inputs, trivial, todoIn, out, edit, csnap, newVer, prev, prevZero, nfRead, dlist, live, todoDel⟩ := b
     simp only at hpc; subst hpc
     jobok_at
   apply safe_dec h1 (by simpa [setPc, St.setJob] using hown.1) (by simpa [setPc, St.setJob] using ho)
@@ -279,9 +306,9 @@ theorem safe_oRemove {cfg : Cfg} {s : St} {j : Nat} (hr : cfg.recheck = true) (h
   have hidx := hb0.ownIdx (Or.inl hpc)
   have h1 : Safe (setPc s j .oRemoved) := by
     apply safe_setPc_plain h
-    obtain ⟨h0, hn0, hn1, hn2, h1, h2, h3, h4, h5, h6, h7, h8, h9, h10, hrec, h11, h12, h13, h14⟩ := hb0
+    obtain ⟨h0, hn0, hn1, hn2, h1, h2, h3, h4, h5, h6, h7, h8, h9, h10, hrec, hnf, hrd, h11, h12, h13, h14⟩ := hb0
     generalize s.job j = b at *
-    obtain ⟨kind, pc, payload, snap, inputs, trivial, todoIn, out, edit, csnap, newVer, prev, prevZero, dlist, live, todoDel⟩ := b
+    obtain ⟨kind, pc, payload, snap, inputs, trivial, todoIn, out, edit, csnap, newVer, prev, prevZero, nfRead, dlist, live, todoDel⟩ := b
     simp only at hpc; subst hpc
     jobok_at
   exact safe_snapRemove hr z h1 (by simpa [setPc, St.setJob] using hidx) (by simp [setPc, St.setJob, ho])
@@ -293,9 +320,9 @@ theorem safe_oRel {s : St} {j : Nat} (h : Safe s) (hj : j < s.nJob)
   have hidx := hb0.ownIdx (Or.inr hpc)
   have h1 : Safe (setPc s j .doStart) := by
     apply safe_setPc_plain h
-    obtain ⟨h0, hn0, hn1, hn2, h1, h2, h3, h4, h5, h6, h7, h8, h9, h10, hrec, h11, h12, h13, h14⟩ := hb0
+    obtain ⟨h0, hn0, hn1, hn2, h1, h2, h3, h4, h5, h6, h7, h8, h9, h10, hrec, hnf, hrd, h11, h12, h13, h14⟩ := hb0
     generalize s.job j = b at *
-    obtain ⟨kind, pc, payload, snap, inputs, trivial, todoIn, out, edit, csnap, newVer, prev, prevZero, dlist, live, todoDel⟩ := b
+    obtain ⟨kind, pc, payload, snap, inputs, trivial, todoIn, out, edit, csnap, newVer, prev, prevZero, nfRead, dlist, live, todoDel⟩ := b
     simp only at hpc; subst hpc
     jobok_at
   exact safe_rel h1 (by simpa [setPc, St.setJob] using hidx) (by simp [setPc, St.setJob, ho])
